@@ -125,6 +125,17 @@ func planC14(tier string, root *simcore.RNG) *plan {
 		}
 		add(b, "append-self")
 	}
+	// E6: damage that hits many lines at once (decimal commas, every k-th number)
+	for _, b := range []string{bs("ascii", 8), bs("ascii", 300), bs("ascii", 1500), "shipped:bottle.stl"} {
+		add(b, "decimal-comma")
+		for _, k := range []int{1, 2, 7} {
+			add(b, fmt.Sprintf("bad-every:%d:%d", k, k))
+		}
+		add(b, "decimal-comma", "crlf")
+	}
+	for _, n := range []int{1, 10, 100, 500, 1500, 4000} {
+		add(fmt.Sprintf("badverts:%d:%d", n, seed))
+	}
 	// arbitrary bytes and random token soups (no fault operator needed: the base is the fault)
 	nrand := 150
 	if thorough {
@@ -217,7 +228,7 @@ func planC14(tier string, root *simcore.RNG) *plan {
 		var keys []string
 		for _, jr := range o.res.Jobs {
 			j0 := findJob(o.sc, jr.ID)
-			if jr.FaultFired || (j0 != nil && (strings.HasPrefix(j0.Base, "rand:") || strings.HasPrefix(j0.Base, "tokens:") || strings.HasPrefix(j0.Base, "crash:"))) {
+			if jr.FaultFired || (j0 != nil && (strings.HasPrefix(j0.Base, "rand:") || strings.HasPrefix(j0.Base, "badverts:") || strings.HasPrefix(j0.Base, "tokens:") || strings.HasPrefix(j0.Base, "crash:"))) {
 				if j := findJob(o.sc, jr.ID); j != nil {
 					keys = append(keys, j.Model+"|"+j.Base+"|"+strings.Join(j.Ops, ","))
 				}
